@@ -326,6 +326,19 @@ func fatHighClusterScenario(oracle string, depth int) *fatScen {
 	return &fatScen{Name: "highclusters", Cfg: fatCfg{Type: 32, Size: 40 << 20, Start: 1 << 20}, Letters: l, Depth: depth, Oracle: oracle, BadLow: 65600}
 }
 
+// fatAliasScenario (C08 only): the caller addresses long-named files and directories by their generated 8.3 alias
+// (LONGFI~1.TXT), which VFAT accepts as a second name of the same entry. What the reference tree would say about such calls is
+// a matter of interpretation (DESIGN 8.4) and is not judged; the on-disk structure must stay sound whatever names are used.
+func fatAliasScenario(cfg fatCfg, oracle string, depth int) *fatScen {
+	W := func(p, off, ln string) fsOp { return fsOp{Kind: "write", Path: p, Off: off, Len: ln} }
+	l := []fsOp{W("longfilename1.txt", "0", "2c+1"), W("C.TXT", "0", "c+1"), {Kind: "create", Path: "longfilename2.txt"}, {Kind: "mkdir", Path: "longdirectoryname/sub"},
+		{Kind: "rename", Path: "C.TXT", Path2: "LONGFI~1.TXT"}, {Kind: "rename", Path: "longfilename2.txt", Path2: "LONGFI~1.TXT"}, {Kind: "rename", Path: "LONGFI~1.TXT", Path2: "D.TXT"},
+		{Kind: "rename", Path: "LONGFI~2.TXT", Path2: "longfilename1.txt"},
+		{Kind: "remove", Path: "LONGFI~1.TXT"}, {Kind: "trunc", Path: "LONGFI~1.TXT"}, W("LONGFI~1.TXT", "eof", "c+1"), W("LONGDI~1/inner-long-name.bin", "0", "c+1"),
+		{Kind: "remove", Path: "LONGDI~1/sub"}, {Kind: "remove", Path: "LONGDI~1"}, {Kind: "reopen"}}
+	return &fatScen{Name: "aliases", Cfg: cfg, Letters: l, Depth: depth, Oracle: oracle}
+}
+
 // fatFillScenario: fill / empty / refill on small volumes, explored to fixpoint.
 func fatFillScenario(cfg fatCfg, oracle string, depth int) *fatScen {
 	W := func(p, ln string) fsOp { return fsOp{Kind: "write", Path: p, Off: "0", Len: ln} }
